@@ -962,16 +962,23 @@ class NetworkGraph(AbstractBaseIR):
             # case II: realize edge projection via source and target indexing
             else:
 
+                # a single (scalar) source that projects to several target entries is broadcast, not indexed
+                fan_out = ssize == 1 and n > 1
+
                 # check wether weighting of source variables is required
                 if all([abs(w-1) < weight_minimum for w in weight]):
                     weighting = ""
                 else:
                     weighting = f" * {w_str}"
-                    args[w_str] = {'vtype': 'constant', 'dtype': 'float', 'value': weight if ssize > 1 else weight[0]}
+                    args[w_str] = {'vtype': 'constant', 'dtype': 'float',
+                                   'value': weight if ssize > 1 or fan_out else weight[0]}
 
                 # get final source and target strings
-                s_str_final = _get_indexed_var_str(s_str, sidx, ssize, reduce=m == 1 and tsize > 1 and n == 1,
-                                                   idx_str=sidx_str, arg_dict=args)
+                if fan_out:
+                    s_str_final = s_str
+                else:
+                    s_str_final = _get_indexed_var_str(s_str, sidx, ssize, reduce=m == 1 and tsize > 1 and n == 1,
+                                                       idx_str=sidx_str, arg_dict=args)
                 t_str_final = _get_indexed_var_str(t_str, tidx, tsize, reduce=tsize > 1 or ssize < tsize,
                                                    idx_str=tidx_str, arg_dict=args)
 
